@@ -23,6 +23,9 @@ type Merger struct {
 
 	less    func(a, b *sam.Record) bool
 	readers []*reader
+
+	// err is the first read error of an input.
+	err error
 }
 
 type reader struct {
@@ -125,6 +128,9 @@ func (m *Merger) Header() *sam.Header {
 //
 // The Read behaviour will depend on the underlying Readers.
 func (m *Merger) Read() (rec *sam.Record, err error) {
+	if m.err != nil {
+		return nil, m.err
+	}
 	if len(m.readers) == 0 {
 		return nil, io.EOF
 	}
@@ -157,6 +163,9 @@ func (m *Merger) nextBySortOrder() (rec *sam.Record, err error) {
 	reader.head, reader.err = reader.r.Read()
 	if reader.err == nil {
 		m.push(reader)
+	} else if reader.err != io.EOF && m.err == nil {
+		// Report the failure of this input on the next call.
+		m.err = reader.err
 	}
 	if rec == nil {
 		return m.Read()
